@@ -1,6 +1,7 @@
 package main
 
 import (
+	"encoding/json"
 	"fmt"
 	"go/ast"
 	"go/token"
@@ -28,6 +29,9 @@ var repoRoot = func() string {
 var verifRoot = "/verif"
 
 type Engine struct {
+	localMu    sync.Mutex
+	localsUsed map[string]map[string]localHint // names of locals the contracts used in this run (gcv expect writes them out)
+	localHints map[string]map[string]localHint // /verif/checks/locals.json
 	dir         string // module directory
 	fset        *token.FileSet
 	prog        *ssa.Program
@@ -103,6 +107,9 @@ func loadEngine(dir string, overlay map[string][]byte) (*Engine, error) {
 		tidTypes: map[string]types.Type{}, ifacePreds: map[string]types.Type{}, ifaceNames: map[string]bool{},
 		extraUFuns: map[string]int{}, footprints: map[*ssa.Function]map[string]string{}, extraUPreds: map[string]int{}, siteAssumes: map[string]string{}}
 	e.fset = token.NewFileSet()
+	if data, err := os.ReadFile(filepath.Join(verifRoot, "checks", "locals", "hints.json")); err == nil {
+		json.Unmarshal(data, &e.localHints)
+	}
 	cfg := &packages.Config{
 		Mode:    packages.LoadAllSyntax,
 		Dir:     dir,
